@@ -15,6 +15,7 @@ import numpy as np
 from rv import core, zoo, monitors, fcsgen
 from rv.fingerprint import fp, diff
 
+ANCHORS = ['FCSData.__array_finalize__', 'FCSData.range', 'FCSData.hist_bins', 'transform', 'to_rfi', 'to_mef', 'selection_std']      # functions the property is anchored in: never entered => inconclusive
 LEVEL = 'exploration'
 LEVEL_TEXT = "Argument-fingerprint purity monitor on every public callable (enumerated; evidence lists uncovered = none) driven by ~340 call templates, the calibration and the Excel workflow with plots and the repository's tests; aliasing driver (mutate one side) and all ordered pairs of read-only queries. Exploration."
 TECHNIQUE = 'argument-fingerprint purity monitor on every public callable + aliasing (mutate one side) and query-order history checkers'
